@@ -509,6 +509,14 @@ func cellCodeCheck(e *Engine, fnName string, ncorner int, edgeTab []int, pairTab
 	}
 	ct := &Contract{pkg: "render", fnName: fnName, id: "code-matches-table", opts: map[string]string{}, invs: map[int][]*Clause{}}
 	x.cur = ct
+	freshCtr = map[string]int{}
+	for k, n := range x.freshBase {
+		freshCtr[k] = n
+	}
+	ufMemo = map[string]*Term{}
+	for k, tm := range x.ufMemoBase {
+		ufMemo[k] = tm
+	}
 	x.schemas = nil
 	x.paths = 0
 	x.unrolled = 0
